@@ -12,6 +12,7 @@
 -/
 import DDProofs.DumpTotal
 import DDProofs.DynExample
+import DDProofs.PredNodesReach
 open Std
 namespace DD
 
@@ -91,6 +92,32 @@ theorem C12_json_roundtrip_total (src : Mgr) (hIs : Inv src) (hOs : OrderOK src.
     ∃ f roots' m', dumpJson src roots = .ok f ∧ loadJson f lo tgt = (.ok roots', m') ∧
       JsonLoaded f e lo roots' m' ∧ LoadedAs src.tbl roots m'.tbl roots' :=
   json_roundtrip_total src hIs hOs roots hn hne hroots lo tgt e hg hpn hr hlo
+
+/-! ### the model-artefact hypotheses hold in every reachable state (audit gap 14) -/
+
+/-- C12: `PredNodes` — the hypothesis of `C12_json_load` / `C12_json_roundtrip` about the unique
+table — holds in every state reached from the empty manager by a guarded history of user
+operations (whatever their arguments, whichever were rejected) -/
+theorem C12_reachable_predNodes (ops : List UOp) (hg : OpsGuarded ops St.init) :
+    PredNodes (run ops St.init).m := reachable_predNodes ops hg
+
+/-- C12: `PredShape` — the hypothesis of `C12_manager_roundtrip` — holds in every such state -/
+theorem C12_reachable_predShape (ops : List UOp) : PredShape (run ops St.init).m :=
+  reachable_predShape ops
+
+/-- C12: every user operation keeps the unique table free of stray keys -/
+theorem C12_runOp_keysOK (op : UOp) (m : Mgr) (h : KeysOK m) : KeysOK (runOp op m).2 :=
+  runOp_keysOK op m h
+
+/-- C12: `load_json` into ANY reachable manager (reordering is not enabled in these histories):
+no hypothesis about the unique table left -/
+theorem C12_json_load_reachable (f : JsonFile) (lo : Bool) (hf : JsonWF f) (ops : List UOp)
+    (hg : OpsGuarded ops St.init)
+    (hroots : ∀ r ∈ (run ops St.init).m.roots, (run ops St.init).m.tbl.Mem r)
+    (hlo : lo = true → LoadOrderOK f (run ops St.init).m (run ops St.init).ext) :
+    ∃ roots' m', loadJson f lo (run ops St.init).m = (.ok roots', m') ∧
+      JsonLoaded f (run ops St.init).ext lo roots' m' :=
+  json_load_holds f lo _ _ hf (reachable_inv ops hg) (reachable_predNodes ops hg) hroots hlo
 
 /-! ### non-vacuity: the example manager `exM` (a < b; 2 = a, 3 = b, 4 = a ∧ b) -/
 
